@@ -9,6 +9,7 @@ pub mod c24_table;
 pub mod hist;
 pub mod iter;
 pub mod lower;
+pub mod scen;
 pub mod sem;
 
 pub fn all() -> Vec<Box<dyn Prop>> {
@@ -37,6 +38,8 @@ pub fn all() -> Vec<Box<dyn Prop>> {
         Box::new(hist::Hist { id: "C12" }),
         Box::new(hist::Hist { id: "C14" }),
         Box::new(hist::Hist { id: "C30" }),
+        Box::new(scen::C04),
+        Box::new(scen::C05),
     ]
 }
 
